@@ -188,6 +188,12 @@ func c02Printable(b []byte) bool {
 // pre-allocates whatever a hostile length prefix announces) and returns every str / bin payload in it.
 // ok = b starts with a well-formed value that contains at least one str / bin of >= 8 bytes.
 func c02MsgpackStrings(b []byte) (out [][]byte, ok bool) {
+	out, _ = c02MsgpackParse(b)
+	return out, len(out) > 0
+}
+
+// c02MsgpackParse: complete = b is exactly one well-formed msgpack value (nothing missing, nothing left over).
+func c02MsgpackParse(b []byte) (out [][]byte, complete bool) {
 	pos, budget := 0, 100000
 	var walk func(depth int) bool
 	need := func(n int) bool { return n >= 0 && pos+n <= len(b) }
@@ -294,9 +300,9 @@ func c02MsgpackStrings(b []byte) (out [][]byte, ok bool) {
 	}
 	if !walk(0) {
 		// a truncated / trailing-garbage document still yields what was readable so far
-		return out, len(out) > 0
+		return out, false
 	}
-	return out, len(out) > 0
+	return out, pos == len(b)
 }
 
 // Recover runs the whole key-less recovery on one value; nil = nothing recognisable.
@@ -570,6 +576,132 @@ func c02CryptoSelfTest() error {
 	r = c02TwoTimePad(seal(key2, nonce, p1), seal(key2, []byte("another-nonc"), p2), map[string]string{"old token": "at-11-00112233445566aa"}, sec)
 	if r.Recovered != nil || r.ZeroRun >= 8 {
 		return fmt.Errorf("crypto self-test: false two-time-pad alarm")
+	}
+	return nil
+}
+
+// ---------------------------------------------------------------------------------------------------------
+// Known-answer check of the cookie cipher, independent of the repository's cipher code: the documentation says
+// cookies are encrypted with AES-CFB under the cookie secret (16/24/32 bytes, optionally given base64url-encoded).
+// The harness knows the secret, so it decrypts every payload itself with Go's crypto/cipher CFB: the result must be
+// the documented plaintext (session: LZ4 frame of the msgpack session; CSRF cookie: the msgpack CSRF record).
+
+func c02AESKey(secret string) []byte {
+	if b, err := base64.RawURLEncoding.DecodeString(strings.TrimRight(secret, "=")); err == nil && (len(b) == 16 || len(b) == 24 || len(b) == 32) {
+		return b
+	}
+	return []byte(secret)
+}
+
+func c02StdCFB(key, payload []byte, decrypt bool) ([]byte, error) {
+	if len(payload) < 16 {
+		return nil, fmt.Errorf("payload of %d bytes has no room for an IV", len(payload))
+	}
+	blk, err := aes.NewCipher(key)
+	if err != nil {
+		return nil, err
+	}
+	out := make([]byte, len(payload)-16)
+	if decrypt {
+		cipher.NewCFBDecrypter(blk, payload[:16]).XORKeyStream(out, payload[16:])
+	} else {
+		cipher.NewCFBEncrypter(blk, payload[:16]).XORKeyStream(out, payload[16:])
+	}
+	return out, nil
+}
+
+// c02PayloadOf returns the decoded first field of a signed cookie value.
+func c02PayloadOf(full string) ([]byte, error) {
+	f := full
+	if k := strings.IndexByte(f, '|'); k >= 0 {
+		f = f[:k]
+	}
+	return base64.URLEncoding.DecodeString(f)
+}
+
+// c02CheckCookieCipher: nil = payload is standard AES-CFB(IV, documented plaintext). mustContain (optional) has to
+// appear in the decoded session.
+func c02CheckCookieCipher(kind string, key []byte, full string, mustContain string) error {
+	payload, err := c02PayloadOf(full)
+	if err != nil {
+		return fmt.Errorf("first field is not base64url: %v", err)
+	}
+	pt, err := c02StdCFB(key, payload, true)
+	if err != nil {
+		return err
+	}
+	switch kind {
+	case "csrf":
+		strs, complete := c02MsgpackParse(pt)
+		if !complete || len(pt) == 0 || pt[0]&0xf0 != 0x80 || len(strs) < 2 {
+			return fmt.Errorf("AES-CFB decryption under the cookie secret does not yield a complete msgpack map with the nonces (first bytes % x)", pt[:c02Min(len(pt), 24)])
+		}
+	default:
+		if len(pt) < 4 || pt[0] != 0x04 || pt[1] != 0x22 || pt[2] != 0x4d || pt[3] != 0x18 {
+			return fmt.Errorf("AES-CFB decryption under the cookie secret does not start with the LZ4 frame magic (first bytes % x)", pt[:c02Min(len(pt), 16)])
+		}
+		dec, err := io.ReadAll(io.LimitReader(lz4.NewReader(bytes.NewReader(pt)), 4<<20))
+		if err != nil {
+			return fmt.Errorf("AES-CFB decryption under the cookie secret starts like an LZ4 frame but does not decompress: %v", err)
+		}
+		if _, complete := c02MsgpackParse(dec); !complete || len(dec) == 0 || dec[0]&0xf0 != 0x80 {
+			return fmt.Errorf("the decompressed plaintext is not a complete msgpack map")
+		}
+		if mustContain != "" && !bytes.Contains(dec, []byte(mustContain)) {
+			return fmt.Errorf("the decoded session does not contain %q", mustContain)
+		}
+	}
+	return nil
+}
+
+func c02Min(a, b int) int {
+	if a < b {
+		return a
+	}
+	return b
+}
+
+// c02EqualRun: longest run of equal bytes at equal offsets >= from.
+func c02EqualRun(a, b []byte, from int) (run, at int) {
+	n := c02Min(len(a), len(b))
+	cur := 0
+	for i := from; i < n; i++ {
+		if a[i] == b[i] {
+			cur++
+			if cur > run {
+				run, at = cur, i-cur+1
+			}
+		} else {
+			cur = 0
+		}
+	}
+	return
+}
+
+func c02CipherSelfTest() error {
+	key := []byte("0123456789abcdef01234567")
+	packed := c02SelfPack(map[string]interface{}{"e": "erin.selftest@x.example", "at": "at-1-0011223344556677", "it": strings.Repeat("eyJhbGciOiJSUzI1NiJ9", 20)})
+	plain := c02SelfLZ4(packed)
+	iv1, iv2 := bytes.Repeat([]byte{0x11}, 16), bytes.Repeat([]byte{0x77}, 16)
+	enc := func(iv []byte, swapped bool) string {
+		ct, _ := c02StdCFB(key, append(append([]byte{}, iv...), plain...), swapped) // swapped = "encrypting" with the decrypter
+		return base64.URLEncoding.EncodeToString(append(append([]byte{}, iv...), ct...)) + "|1700000000|c2ln"
+	}
+	if err := c02CheckCookieCipher("session", key, enc(iv1, false), "erin.selftest@x.example"); err != nil {
+		return fmt.Errorf("cipher self-test: standard AES-CFB rejected: %v", err)
+	}
+	if err := c02CheckCookieCipher("session", key, enc(iv1, true), ""); err == nil {
+		return fmt.Errorf("cipher self-test: a cipher with the stream directions swapped passed the known-answer check")
+	}
+	pa, _ := c02PayloadOf(enc(iv1, true))
+	pb, _ := c02PayloadOf(enc(iv2, true))
+	if r, _ := c02EqualRun(pa, pb, 16); r < 24 {
+		return fmt.Errorf("cipher self-test: plaintext-keyed stream not visible as ciphertext similarity (run %d)", r)
+	}
+	pa, _ = c02PayloadOf(enc(iv1, false))
+	pb, _ = c02PayloadOf(enc(iv2, false))
+	if r, _ := c02EqualRun(pa, pb, 16); r >= 8 {
+		return fmt.Errorf("cipher self-test: false similarity alarm (run %d)", r)
 	}
 	return nil
 }
